@@ -129,7 +129,7 @@ Section Lift.
   (* the echo is a fixed point: read it back, elaborate again, echo again *)
   Theorem echo_fixed_point : forall e,
     printable_t e = true -> exact_t e = true -> consistent e = true ->
-    exists u, parse (pp e) = Ok [u] [] /\ pp (lift u) = pp e.
+    exists u, parse (pp e) = Ok [StExpr u] [] /\ pp (lift u) = pp e.
   Proof.
     intros e Hp Hx Hc. exists (erase e). split; [apply echo_roundtrip_exact; assumption|].
     rewrite (lift_erase (S (tsize e)) e ltac:(lia) Hc). reflexivity.
